@@ -5,6 +5,7 @@
 package vref
 
 import (
+	"errors"
 	"math"
 	"reflect"
 	"unsafe"
@@ -254,10 +255,30 @@ func (g *Gen) fill(v reflect.Value, depth int) {
 		for i := 0; i < v.NumField(); i++ {
 			g.fill(v.Field(i), depth+1)
 		}
+	case reflect.Interface:
+		var pool []reflect.Value
+		if v.Type().NumMethod() > 0 {
+			for _, e := range ErrPool {
+				pool = append(pool, reflect.ValueOf(e))
+			}
+		} else {
+			pool = []reflect.Value{reflect.ValueOf(1), reflect.ValueOf("s"), reflect.ValueOf(ErrPool[0]), reflect.ValueOf(AnyPtr), reflect.ValueOf(2.5)}
+		}
+		c := rapid.IntRange(0, len(pool)).Draw(g.T, "iface")
+		if c == len(pool) {
+			return // nil interface
+		}
+		v.Set(pool[c])
 	default:
 		panic("vref: unsupported kind " + v.Kind().String())
 	}
 }
+
+// ErrPool holds the distinct error values used for error-typed positions.
+var ErrPool = []error{errors.New("err0"), errors.New("err1"), errors.New("err2"), errors.New("err3"), errors.New("err4")}
+
+// AnyPtr is a pointer used as a dynamic value of interface{} positions.
+var AnyPtr = new(int)
 
 func hasNaN(v reflect.Value) bool {
 	switch v.Kind() {
